@@ -2,6 +2,8 @@ import TypifyModel.Proofs.Exclusive
 import TypifyModel.Proofs.C03
 import TypifyModel.Proofs.C03Valid
 import TypifyModel.Proofs.C03Contain
+import TypifyModel.Proofs.SerdeAttrs
+import TypifyModel.Proofs.StructProps
 open TypifyModel.C03 TypifyModel.RoundTrip
 #print axioms struct_rt
 #print axioms fields_back
@@ -20,3 +22,7 @@ open TypifyModel.C03 TypifyModel.RoundTrip
 #print axioms TypifyModel.Excl.fixed_values_not_exclusive
 #print axioms TypifyModel.Excl.typed_enum_not_exclusive
 #print axioms TypifyModel.Excl.integer_number_not_exclusive
+#print axioms TypifyModel.SerdeAttrs.skipped_eq_rendered
+#print axioms TypifyModel.SerdeAttrs.skip_only_with_bare_default
+#print axioms TypifyModel.SerdeAttrs.skipped_value_is_intrinsic_default
+#print axioms TypifyModel.StructProps.wrapped_iff_nothing_to_fall_back_on
